@@ -6,6 +6,9 @@ import Mathlib.Data.Fintype.BigOperators
 import Mathlib.Data.Fintype.Pi
 import Mathlib.Data.Nat.Bitwise
 import Mathlib.Algebra.BigOperators.Fin
+import Mathlib.Data.List.OfFn
+import Mathlib.Tactic.Ring
+import Mathlib.Data.List.FinRange
 import QV.Model.Hilbert
 
 namespace QV
@@ -44,5 +47,121 @@ noncomputable def rowEquiv (n : ℕ) : Fin (2 ^ n) ≃ (Fin n → Bool) :=
 theorem sum_rows {M : Type*} [AddCommMonoid M] (n : ℕ) (f : (Fin n → Bool) → M) :
     ∑ k : Fin (2 ^ n), f (rowBits n k.val) = ∑ σ : Fin n → Bool, f σ :=
   Fintype.sum_bijective _ (rowBits_bijective n) _ _ (fun _ => rfl)
+
+/-! ### C19: the code's mask-and-reverse row, the `matmul` index, and their big-endian meaning -/
+
+/-- the mask test `(num & (1 << i)) > 0` is bit `i` of `num` -/
+theorem mask_pos_eq_testBit (k i : ℕ) : decide (k &&& (1 <<< i) > 0) = k.testBit i := by
+  rw [Nat.one_shiftLeft, Nat.and_two_pow]
+  cases h : k.testBit i <;> simp
+
+/-- the row as coded (little-endian masks, then `[::-1]`) is the big-endian bit list -/
+theorem maskRow_eq_ofFn (s k : ℕ) :
+    maskRow s k = List.ofFn (fun j : Fin s => k.testBit (s - 1 - j.val)) := by
+  apply List.ext_getElem
+  · simp [maskRow]
+  · intro i h1 h2
+    have hi : i < s := by simpa [maskRow] using h1
+    simp only [maskRow, List.getElem_reverse, List.getElem_map, List.getElem_range, List.length_map,
+      List.length_range, List.getElem_ofFn, mask_pos_eq_testBit]
+
+theorem maskRow_eq_map_spaceBit (s k : ℕ) : maskRow s k = (List.finRange s).map (spaceBit s k) := by
+  rw [maskRow_eq_ofFn, List.ofFn_eq_map]; rfl
+
+theorem spaceGuard_eq (size : Option ℕ) (nv : ℕ) :
+    spaceGuard size nv = if 20 < effSize size nv then .error .ValueError else .ok (effSize size nv) := rfl
+
+@[simp] theorem maskRow_length (s k : ℕ) : (maskRow s k).length = s := by simp [maskRow]
+
+theorem indexPowers_succ (m : ℕ) : indexPowers (m + 1) = 2 ^ m :: indexPowers m := by
+  simp only [indexPowers, List.range_succ_eq_map, List.map_cons, List.map_map]
+  refine congrArg₂ _ (by simp) (List.map_congr_left (fun j _ => ?_))
+  simp only [Function.comp, Nat.succ_eq_add_one]
+  congr 1; omega
+
+/-- the `matmul` with `2 ** (arange(n,0,-1) - 1)` is the recursive big-endian index -/
+theorem convertBasisElementToIndex_eq (st : List Bool) : convertBasisElementToIndex st = basisIndexL st := by
+  induction st with
+  | nil => simp [convertBasisElementToIndex, basisIndexL, indexPowers]
+  | cons b rest ih =>
+    simp only [convertBasisElementToIndex] at ih ⊢
+    simp only [List.length_cons, indexPowers_succ, List.zip_cons_cons, List.map_cons, List.sum_cons,
+      basisIndexL, ih]
+    cases b <;> simp
+
+theorem basisIndexL_lt (l : List Bool) : basisIndexL l < 2 ^ l.length := by
+  induction l with
+  | nil => simp [basisIndexL]
+  | cons b rest ih =>
+    simp only [basisIndexL, List.length_cons, Nat.pow_succ]
+    split <;> omega
+
+theorem basisIndexL_append (σ τ : List Bool) :
+    basisIndexL (σ ++ τ) = basisIndexL σ * 2 ^ τ.length + basisIndexL τ := by
+  induction σ with
+  | nil => simp [basisIndexL]
+  | cons b rest ih =>
+    simp only [List.cons_append, basisIndexL, ih, List.length_append, Nat.pow_add]
+    split <;> ring
+
+/-- index of the big-endian bit list of `k` is `k` reduced mod `2^n` -/
+theorem basisIndexL_ofFn_testBit (n k : ℕ) :
+    basisIndexL (List.ofFn (fun j : Fin n => k.testBit (n - 1 - j.val))) = k % 2 ^ n := by
+  induction n with
+  | zero => simp [basisIndexL, Nat.mod_one]
+  | succ n ih =>
+    rw [List.ofFn_succ]
+    simp only [basisIndexL, List.length_ofFn, Fin.val_zero, Fin.val_succ]
+    have e : ∀ j : Fin n, n - (j.val + 1) = n - 1 - j.val := fun j => by omega
+    simp only [e, ih, Nat.add_sub_cancel, Nat.sub_zero]
+    rw [Nat.mod_pow_succ, ← Nat.toNat_testBit]
+    cases k.testBit n <;> simp [Nat.add_comm]
+
+theorem basisIndexL_maskRow (n k : ℕ) : basisIndexL (maskRow n k) = k % 2 ^ n := by
+  rw [maskRow_eq_ofFn, basisIndexL_ofFn_testBit]
+
+/-- every bit list is the coded row of its own index -/
+theorem maskRow_basisIndexL (σ : List Bool) : maskRow σ.length (basisIndexL σ) = σ := by
+  obtain ⟨k, hk⟩ := (rowBits_bijective σ.length).2 (fun j => σ[j.val])
+  have h1 : maskRow σ.length k.val = σ := by
+    rw [maskRow_eq_ofFn]
+    have : (fun j : Fin σ.length => k.val.testBit (σ.length - 1 - j.val)) = fun j => σ[j.val] := hk
+    rw [this, List.ofFn_getElem]
+  have h2 : basisIndexL σ = k.val := by
+    conv_lhs => rw [← h1]
+    rw [basisIndexL_maskRow, Nat.mod_eq_of_lt k.isLt]
+  rw [h2, h1]
+
+/-- the index as the declarative big-endian digit sum `Σ_j σ_j 2^(n-1-j)` -/
+theorem basisIndex_eq_sum {n : ℕ} (σ : Fin n → Bool) :
+    basisIndex σ = ∑ j : Fin n, (if σ j then 2 ^ (n - 1 - j.val) else 0) := by
+  induction n with
+  | zero => simp [basisIndex, basisIndexL]
+  | succ n ih =>
+    have := ih (fun j => σ j.succ)
+    simp only [basisIndex] at this ⊢
+    rw [List.finRange_succ, List.map_cons, List.map_map, Fin.sum_univ_succ]
+    simp only [basisIndexL, List.length_map, List.length_finRange, Function.comp_def, this, Fin.val_zero,
+      Fin.val_succ]
+    have e : ∀ j : Fin n, n - (j.val + 1) = n - 1 - j.val := fun j => by omega
+    simp [e]
+
+/-- setting a 0 site `j` to 1 raises the index by exactly `2^(n-1-j)` -/
+theorem basisIndexL_set_true (σ : List Bool) (j : ℕ) (hj : j < σ.length) (h0 : σ[j] = false) :
+    basisIndexL (σ.set j true) = basisIndexL σ + 2 ^ (σ.length - 1 - j) := by
+  induction σ generalizing j with
+  | nil => simp at hj
+  | cons b rest ih =>
+    cases j with
+    | zero =>
+      simp only [List.getElem_cons_zero] at h0
+      subst h0
+      simp [basisIndexL, Nat.add_comm]
+    | succ j =>
+      simp only [List.getElem_cons_succ] at h0
+      have hj' : j < rest.length := by simpa using hj
+      simp only [List.set_cons_succ, basisIndexL, List.length_set, ih j hj' h0, List.length_cons]
+      have : rest.length + 1 - 1 - (j + 1) = rest.length - 1 - j := by omega
+      rw [this]; omega
 
 end QV
